@@ -187,7 +187,7 @@ def task_make_copy(pr, repo):
 def run(pr, repo):
     from . import C16
     # an unlisted residue still acts as charge / hydrogen-bond partner: pair terms are decided per term (iterative pairs included)
-    pr.parallel([(task_parse, ()), (task_init_group, ()), (task_setup_and_add, ()), (task_make_copy, ()), (C16.task_iterative, ())])
+    pr.parallel([(task_parse, ()), (task_init_group, ()), (task_setup_and_add, ()), (task_make_copy, ()), (C16.task_iterative, (True,))])
     c = frames.census(repo)
     readers = c.readers('titrate_only')
     extra = sorted(readers - {CC + '.init_group', 'propka.lib.loadOptions'})
